@@ -136,6 +136,14 @@ func checkString(c strCase) (h.Info, error) {
 			return info, fmt.Errorf("ParsePath(%q) = %v, reference %v (component %d)", s, []uint32(got), want, i)
 		}
 	}
+	// no state between calls: modify the returned path in place and parse the same string again
+	for i := range got {
+		got[i] ^= 0x5a5a5a5a
+	}
+	if again, err := bip32path.ParsePath(s); err != nil || !equal(again, want) {
+		return info, fmt.Errorf("second ParsePath(%q) = %v, %v after the first result was modified; want %v", s, []uint32(again), err, want)
+	}
+	got = bip32path.Path(append([]uint32{}, want...))
 	var p bip32path.Path
 	if uerr := p.UnmarshalText([]byte(s)); uerr != nil || !equal(p, want) {
 		return info, fmt.Errorf("UnmarshalText(%q) = %v,%v; reference %v", s, []uint32(p), uerr, want)
